@@ -126,6 +126,13 @@ macro "addr_refused" : tactic => `(tactic| (
   intro rx rb len
   exact leaf_refused (by intro a; kernel_rfl)))
 
+/-- methods `m(dest, lhs, address)` with two XMM registers (the VEX three-operand forms) -/
+def AddrOkXX (m : XmmRegister → XmmRegister → Address → X64 Unit)
+    (spec : XmmRegister → XmmRegister → AddrReq → SpecResult) (guard : Bool → Bool) : Prop :=
+  ∀ (avx : Bool) (dest lhs : Fin 16) (rx rb : Bool) (len : Fin 6),
+    AddrLeaf (fun a => enc avx (m (X dest) (X lhs) a)) (fun req => want (spec (X dest) (X lhs) req)) (guard avx)
+      (dest.val % 8) rx rb (len.val + 1)
+
 /-! ## `Address::array` -/
 
 /-- ModRM byte with the reg field or-ed in: when bits 5–3 of the address's first byte are clear, `mod` and `rm` are
